@@ -1142,4 +1142,8 @@ def run(ctx):
         obs.append(x)
     obs += wave8_rules(ctx)
     obs += wave10_rules(ctx)
+    # wave 11: the code generated for a path is the code of the template the group holds now (shared with C20.order/import)
+    from share import relabel
+    from rules.c20 import order_rules
+    obs += relabel(order_rules(ctx), "C20.order/import", "C04.group/import")
     return obs
